@@ -492,6 +492,17 @@ def parse_dump(text):
                 if k < len(s):
                     consts[s[:k]] = Func(s[:k], [], s[k + 2:].rsplit(" = {", 1)[0], body)
             i = j + 1
+        elif ln.startswith("const ") and ln.endswith(";") and " = const " in ln:
+            head, val = ln[6:-1].rsplit(" = const ", 1)
+            k = 0
+            while True:
+                k = skip_balanced(head, k, ":")
+                if k >= len(head) or (head[k + 1:k + 2] == " " and head[k - 1] != ":"):
+                    break
+                k += 2 if head[k + 1:k + 2] == ":" else 1
+            if k < len(head):
+                consts[head[:k]] = Func(head[:k], [], head[k + 2:], f"    bb0: {{\n        _0 = const {val};\n        return;\n    }}")
+            i += 1
         else:
             i += 1
     return funcs, consts
